@@ -12,7 +12,6 @@ import (
 	"github.com/dlclark/regexp2/v2/syntax"
 
 	"verif/internal/ast"
-	"verif/internal/cls"
 	"verif/internal/h"
 )
 
@@ -40,33 +39,33 @@ func NonboundaryAtomic(key string, recheck func() bool) bool {
 	return gone
 }
 
-// affectedByNotWordFold are the runes whose case orbit (SimpleFold plus the engine's lower-case
-// table) straddles the ASCII word set: K (Kelvin) ~ k, ſ ~ s, İ -> i.
-const affectedByNotWordFold = "iI\u0130\u0131kK\u212AsS\u017F"
-
-// RE2IgnoreCaseNotWord attributes a disagreement to the finding "under RE2/ECMAScript with
-// IgnoreCase the range-based \W is case-folded as a positive set, so it contains k, s (and i
-// inside a bracket class)". The predicate is syntactic and narrow: the RE2 option, a \W under
-// an effective IgnoreCase in the pattern, and one of the nine affected runes in the input.
-func RE2IgnoreCaseNotWord(key string, root *ast.Node, re2 bool, input string) bool {
-	if !Enabled || !re2 || root == nil || !strings.ContainsAny(input, affectedByNotWordFold) {
+// IgnoreCaseU0130 attributes a disagreement with Go's regexp to the finding "under IgnoreCase the engine's
+// lower-casing table maps U+0130 (LATIN CAPITAL LETTER I WITH DOT ABOVE) to i": (?i)[\x{130}] matches i and I but
+// not U+0130 itself, and the negated ASCII classes (\W, [[:^alpha:]]) leave it out. The predicate is syntactic:
+// some part of the pattern is case-insensitive and U+0130 occurs in the input or in the pattern.
+func IgnoreCaseU0130(key string, root *ast.Node, input string) bool {
+	if !Enabled || root == nil {
 		return false
 	}
-	var inClass func(e *cls.Expr) bool
-	inClass = func(e *cls.Expr) bool {
-		if e == nil {
-			return false
-		}
-		for _, it := range e.Items {
-			if it.Kind == cls.Short && it.Name == "W" {
+	if !root.Has(func(x *ast.Node) bool { return x.Eff.I }) {
+		return false
+	}
+	inPattern := root.Has(func(x *ast.Node) bool {
+		for _, r := range x.R {
+			if r == 0x130 {
 				return true
 			}
 		}
-		return inClass(e.Sub)
-	}
-	if !root.Has(func(x *ast.Node) bool {
-		return x.Eff.I && ((x.K == ast.KShort && x.S == "W") || (x.K == ast.KClass && inClass(x.C)))
-	}) {
+		if x.K == ast.KClass && x.C != nil {
+			for _, e := range x.C.Endpoints() {
+				if e == 0x130 {
+					return true
+				}
+			}
+		}
+		return false
+	})
+	if !inPattern && !strings.ContainsRune(input, 0x130) {
 		return false
 	}
 	h.Excluded(key)
